@@ -28,7 +28,8 @@ class ipaddress(FieldType):
         try:
             return self.val == ip_address(b)
         except ValueError:
-            return False
+            # Not an address: let the other operand have its say (the selector's placeholder for missing fields needs this)
+            return NotImplemented
 
     def __hash__(self) -> int:
         return hash(self.val)
@@ -66,7 +67,7 @@ class ipnetwork(FieldType):
         try:
             return self.val == ip_network(b)
         except ValueError:
-            return False
+            return NotImplemented
 
     def __hash__(self) -> int:
         return hash(self.val)
